@@ -33,6 +33,8 @@ type NSliceStr []string
 type NSliceN []NI16
 type NMapSI map[string]int
 type NMapAA map[gen.Atom]any
+type NMapXS map[any]string
+type NMapNL map[NStr][]string
 type NArr2 [2]uint16
 type NArr0 [0]int
 type NArr3S [3]string
@@ -89,6 +91,23 @@ type S4 struct {
 	I  int
 	F  float64
 	S  NStr
+}
+
+// S5: collections of interface values and interface slots, each followed by a nested registered struct (they share codec state)
+type S5 struct {
+	A   []any
+	In1 Inner
+	M   map[string]any
+	In2 Inner
+	X   any
+	In3 Inner
+	Arr [2]any
+	In4 Inner
+	NA  NSliceAny
+	In5 Inner
+	E   error
+	Nm  NMapXS
+	In6 Inner
 }
 
 // Marsh implements edf.Marshaler / edf.Unmarshaler: N bytes of a pattern
@@ -148,8 +167,8 @@ var (
 	// registration order: a type must be registered before a type that mentions it
 	family = []any{
 		NI16(0), NI64(0), NU8(0), NU64(0), NInt(0), NStr(""), NF32(0), NF64(0), NBool(false),
-		NSliceI(nil), NSliceAny(nil), NSliceStr(nil), NSliceN(nil), NMapSI(nil), NMapAA(nil), NArr2{}, NArr0{}, NArr3S{},
-		Inner{}, SEmpty{}, Marsh{}, BinMarsh{}, S1{}, S2{}, S3{}, S4{},
+		NSliceI(nil), NSliceAny(nil), NSliceStr(nil), NSliceN(nil), NMapSI(nil), NMapAA(nil), NMapXS(nil), NMapNL(nil), NArr2{}, NArr0{}, NArr3S{},
+		Inner{}, SEmpty{}, Marsh{}, BinMarsh{}, S1{}, S2{}, S3{}, S4{}, S5{},
 	}
 	// types the framework registers itself (net/edf/init.go): the first of them owns the lowest cache id
 	framework = []any{gen.Env(""), gen.LogLevel(0), gen.ProcessState(0), gen.Version{}, gen.MessageEvent{}, gen.ProcessFallback{}, gen.ProcessShortInfo{}}
